@@ -5,7 +5,9 @@ import Hive.Base.Proto
 The backing store holds one high-water mark under the sequence's key.  At most one `Sequence`
 object is live at a time; a crash abandons it at a store-operation boundary (between calls, after
 the store read of `update`, after the store write of `update`, after the store write of `Release`)
-and it is never used again.  `Nat` is used for the numbers: wrap-around at 2^64 is not modelled.
+and it is never used again.  Numbers are `Nat`s; the code's are `uint64`: `update` caps a lease at
+`cap` = 2^64-1 (`math.MaxUint64`) and reports exhaustion when nothing is left, and `C07_no_wrap` shows that no
+value of the model ever exceeds `cap`, so the two arithmetics coincide.
 -/
 namespace Hive.Seq
 
@@ -57,9 +59,16 @@ def init : St := { store := none, obj := none, returned := [], budget := 0 }
 
 def mark (s : St) : Nat := s.store.getD 0
 
-/-- `update()`: read the mark (0 if absent), reserve one interval, write it back. -/
+/-- `math.MaxUint64`: the end of the number space. -/
+def cap : Nat := 18446744073709551615
+
+/-- The lease `update()` takes at mark `m` with interval `i`: the interval, cut off at the end of the number
+space (`lease := interval; if remaining := MaxUint64 - next; lease > remaining { lease = remaining }`). -/
+def lease (m i : Nat) : Nat := min i (cap - m)
+
+/-- `update()` with a non-empty lease: read the mark (0 if absent), reserve the lease, write it back. -/
 def update (m : Nat) (o : Obj) : Obj × Nat :=
-  ({ o with next := m, reserved := m + o.interval }, m + o.interval)
+  ({ o with next := m, reserved := m + lease m o.interval }, m + lease m o.interval)
 
 /-- A lease is held iff numbers remain that can be served from memory. -/
 def hasLease (o : Obj) : Bool := o.next < o.reserved
@@ -77,6 +86,9 @@ def step (s : St) : Op → St × Out
     | some o =>
       if hasLease o then
         ({ s with obj := some { o with next := o.next + 1 }, returned := o.next :: s.returned }, .num o.next)
+      else if lease (mark s) o.interval = 0 then
+        -- `return ErrSequenceExhausted`: `seq.next = num` happened, nothing was written
+        ({ s with obj := some { o with next := mark s } }, .err)
       else
         let (o', m') := update (mark s) o
         ({ s with store := some m', obj := some { o' with next := o'.next + 1 },
@@ -102,7 +114,10 @@ def step (s : St) : Op → St × Out
       | .nextWrite =>
         if hasLease o then
           (abandon { s with returned := o.next :: s.returned }, .num o.next)
-        else (abandon { s with store := some (mark s + o.interval) }, .crashed)
+        else if lease (mark s) o.interval = 0 then
+          -- exhausted: no store write is made, the call returns its error and the object lives on
+          ({ s with obj := some { o with next := mark s } }, .err)
+        else (abandon { s with store := some (mark s + lease (mark s) o.interval) }, .crashed)
       | .relWrite =>
         if hasLease o then (abandon { s with store := some o.next }, .crashed)
         else (abandon s, .ok)   -- Release makes no store call and returns
@@ -174,7 +189,10 @@ def stepLine (s : St) (toks : List String) : St × String :=
   match toks with
   | ["mark"] => (s, showOptNat s.store)
   | "parrel" :: _ => (s, "ok")   -- concurrent Next vs Release: last request of a case, judged by the Go oracle only
-  | ["par", g, k] =>
+  | ["sibling", _] => (s, "ok")  -- a sibling view of the store is opened and written: invisible to the sequence
+  | [p, g, k] =>
+    -- `par`: g×k concurrent Next calls; `parfr`: the same with foreign readers of another key on the same handle
+    if p != "par" && p != "parfr" then (s, "bad-op") else
     match g.toNat?, k.toNat?, s.obj with
     | some g, some k, some _ =>
       let (s', ns) := nexts (g * k) s []
